@@ -4,6 +4,7 @@
 // y_i in 0..Y enumerated as cost-free input choices, fibers created up front or
 // each creating the next. Oracle: while a fiber is ready, the number of times
 // OTHER fibers are run before it runs again is at most 2*n.
+#include "fiber_cond.h"
 #include "rt_common.h"
 
 #define MAXF 160
@@ -31,6 +32,30 @@ GHOST static int others_done(void) {
   return 1;
 }
 
+// -Dpp=R: fibers 1 and 2 do not yield at all: they hand a turn back and forth R times through a
+// mutex + condition variable (the wake-up path of mutex/cond/rwlock/barrier), while the remaining
+// fibers and main keep yielding. A yielding fiber is ready the whole time and must not be bypassed
+// more than the bound either.
+static int pp_rounds, pp_turn = 1;
+static fiber_mutex_t ppm;
+static fiber_cond_t ppc;
+static void* pingpong(void* p) {
+  int id = (int)(intptr_t)p;
+  runs_now(id);
+  for (int k = 0; k < pp_rounds; k++) {
+    fiber_mutex_lock(&ppm);
+    while (pp_turn != id) {
+      fiber_cond_wait(&ppc, &ppm);
+      runs_now(id);
+    }
+    pp_turn = 3 - id;
+    fiber_cond_signal(&ppc);
+    fiber_mutex_unlock(&ppm);
+  }
+  mark_done(id);
+  return 0;
+}
+
 static void* body(void* p) {
   int id = (int)(intptr_t)p;
   runs_now(id);
@@ -51,6 +76,9 @@ int harness_main(void) {
   nf = fmc_param("n", 3);
   Y = fmc_param("Y", 6);
   chain = fmc_param("chain", 0);
+  pp_rounds = fmc_param("pp", 0);
+  fiber_mutex_init(&ppm);
+  fiber_cond_init(&ppc);
   rt_start();
   fmc_begin();
   // -Dfixed=1: many fibers, every one yields Y times (thresholds that depend on the NUMBER of
@@ -62,7 +90,7 @@ int harness_main(void) {
   int first = chain ? 2 : nf;
   for (int i = 1; i < first; i++) {
     mark_ready(i);
-    fib[i] = fiber_create(STK, body, (void*)(intptr_t)i);
+    fib[i] = fiber_create(STK, (pp_rounds && i <= 2) ? pingpong : body, (void*)(intptr_t)i);
   }
   // main (fiber 0) polls with yield: exactly the loop the property talks about
   int polls = 0;
